@@ -21,6 +21,11 @@ branch is the rest of the function.  Pointers: a `const T *` parameter is an arr
 and differences of pointers into the same array are supported; a returned pointer is returned as its index, nullptr
 as -1.  `x++` / `x--` inside a larger expression is supported when x occurs nowhere else in that expression (its
 update is applied after the expression).
+A parameter `T *&p` (a pointer the function advances) is an array plus an index parameter, and the function returns
+the pair (result, final index); an `end` pointer into the same array is an index parameter (ALIAS_PARAMS); a call
+`f(sp, ep)` to such a function binds the pair and updates sp.  `continue`, `do { } while (false)`, `(void)e;`,
+`p += n`, casts between byte-pointer types (a view of the array through wrapu 8 / wraps 8), integer locals declared
+without initialiser (reading one before it is assigned is rejected) are supported.
 Anything else makes the translation of that function fail (reported; the obligation that mentions it then no longer
 compiles)."""
 import json
@@ -48,7 +53,15 @@ TARGETS = [
     ('utf16_measure_from_utf32', 'size_t (const char32_t *, size_t)'),
     ('utf8_measure_from_latin_1', 'size_t (const char *, size_t)'),
     ('validate_utf8', '_ST_PRIVATE::conversion_error_t (const char *, size_t)'),
+    ('extract_utf8', 'char32_t (const unsigned char *&, const unsigned char *)'),
+    ('extract_utf16', 'char32_t (const char16_t *&, const char16_t *)'),
+    ('utf8_measure_from_utf16', 'size_t (const char16_t *, size_t)'),
+    ('utf16_measure_from_utf8', 'size_t (const char *, size_t)'),
+    ('utf32_measure_from_utf8', 'size_t (const char *, size_t)'),
+    ('utf32_measure_from_utf16', 'size_t (const char16_t *, size_t)'),
 ]
+# a pointer parameter that points into the array of another parameter (one past its end): it is passed as an index
+ALIAS_PARAMS = {('extract_utf8', 'end'): 'utf8', ('extract_utf16', 'end'): 'utf16'}
 # a translated function that returns a pointer returns it into the array of this parameter
 RET_BASE_PARAM = 0
 
@@ -228,7 +241,27 @@ class Translator:
         if t is None:
             raise Unsupported('call to %s' % rd.get('name'))
         args, ptrs = [], []
-        for a in inner[1:]:
+        cparams = [c for c in (self.funcs[(t[0], t[1])][0].get('inner') or []) if isinstance(c, dict) and c.get('kind') == 'ParmVarDecl']
+        refs = []
+        for a, cp in zip(inner[1:], cparams):
+            cq = strip_quals((cp.get('type') or {}).get('qualType', ''))
+            if cq.replace(' ', '').endswith('*&'):
+                tgt = a
+                while tgt.get('kind') in ('ParenExpr', 'ImplicitCastExpr') and tgt.get('castKind', 'NoOp') == 'NoOp':
+                    tgt = tgt['inner'][0]
+                vid = (tgt.get('referencedDecl') or {}).get('id')
+                if tgt.get('kind') != 'DeclRefExpr' or vid not in self.ptr_base or vid not in env or self.pending is None:
+                    raise Unsupported('argument for a T*& parameter that is not a local pointer variable')
+                args += [self.ptr_base[vid], env[vid]]
+                ptrs.append((self.ptr_base[vid], env[vid]))
+                refs.append(vid)
+                continue
+            if (t[0], cp.get('name')) in ALIAS_PARAMS:
+                base, idx = self.ptr_expr(a, env)
+                if not ptrs or base != ptrs[0][0]:
+                    raise Unsupported('end pointer into another array')
+                args.append(idx)
+                continue
             if self.is_ptr(a):
                 base, idx = self.ptr_expr(a, env)
                 if base is None:
@@ -237,8 +270,15 @@ class Translator:
                 args.append(base if idx == '(0)' else '(fun i_ => %s (%s + i_))' % (base, idx))
             else:
                 args.append(self.expr(a, env))
-        if self.fuelled(t):
-            if self.binds is None or self.shortcircuit:
+        if refs:
+            if len(refs) != 1 or self.fuelled(t) or self.binds is None or self.shortcircuit or self.is_ptr(n):
+                raise Unsupported('call to a function with a T*& parameter in this position')
+            r = self.fresh('r_' + coq_name(t))
+            ni = self.fresh('i_' + self.var_names.get(refs[0], 'p'))
+            self.binds.append((('pair', r, ni), '(src_%s %s)' % (coq_name(t), ' '.join(args))))
+            self.pending.append((refs[0], ni))
+        elif self.fuelled(t):
+            if self.binds is None or self.shortcircuit or not self.opt:
                 raise Unsupported('call to a function with a loop in this position')
             r = self.fresh('r_' + coq_name(t))
             self.binds.append((r, '(src_%s %s %s)' % (coq_name(t), self.fuel, ' '.join(args))))
@@ -253,7 +293,10 @@ class Translator:
 
     def with_binds(self, binds, text):
         for name, c in reversed(binds):
-            text = '(match %s with None => None | Some %s => %s end)' % (c, name, text)
+            if isinstance(name, tuple):
+                text = "(let '(%s, %s) := %s in %s)" % (name[1], name[2], c, text)
+            else:
+                text = '(match %s with None => None | Some %s => %s end)' % (c, name, text)
         return text
 
     def count_refs(self, n, vid):
@@ -265,7 +308,7 @@ class Translator:
     def full_expr(self, n, env, allow_pending=False, ptr=False):
         """value of a full expression and the variable updates (x++ / x--) to apply after it"""
         self.pending = []
-        self.binds = [] if self.opt else None
+        self.binds = []
         try:
             v = self.ptr_expr(n, env) if ptr else self.expr(n, env)
             pend, binds = self.pending, self.binds or []
@@ -277,7 +320,7 @@ class Translator:
                 raise Unsupported('a variable incremented inside an expression occurs elsewhere in it')
         if pend and not allow_pending:
             raise Unsupported('increment inside an expression in this position')
-        if pend and binds:
+        if pend and any(not isinstance(b[0], tuple) for b in binds):
             raise Unsupported('increment and call to a function with a loop in one expression')
         return v, pend, binds
 
@@ -353,6 +396,8 @@ class Translator:
                 return 'ext_' + rd.get('name')
             if rd.get('kind') in ('ParmVarDecl', 'VarDecl'):
                 if rd['id'] in env:
+                    if env[rd['id']] is None:
+                        raise Unsupported('read of the uninitialised local %s' % rd.get('name'))
                     return env[rd['id']]
                 # a namespace-scope constant: evaluated by the compiler
                 name = rd.get('name')
@@ -589,8 +634,11 @@ class Translator:
         if k == '__continue__':
             return '(%s %s)' % (s['lname'], ' '.join(["fuel'"] + self.arrays + [env[i] for i in s['ids']]))
         if k == 'ReturnStmt':
-            v, _, binds = self.full_expr(inner[0], env)
-            return self.with_binds(binds, '(Some %s)' % v) if self.opt else v
+            v, pend, binds = self.full_expr(inner[0], env, allow_pending=bool(self.ref_ptrs))
+            lets, env2 = self.apply_pending(pend, env)
+            if self.ref_ptrs:
+                v = '%s(%s, %s)' % (lets, v, env2[self.ref_ptrs[0]])
+            return self.with_binds(binds, '(Some %s)' % v) if self.opt else self.with_binds(binds, v)
         if k in ('WhileStmt', 'ForStmt'):
             if not self.opt:
                 raise Unsupported('loop in a function translated without fuel')
@@ -644,10 +692,12 @@ class Translator:
             if d.get('kind') != 'VarDecl':
                 raise Unsupported('declaration %s' % d.get('kind'))
             init = [c for c in (d.get('inner') or []) if isinstance(c, dict)]
-            if not init:
-                raise Unsupported('uninitialised local %s' % d.get('name'))
             env = dict(env)
             self.var_names[d['id']] = d['name']
+            if not init:
+                self.int_type(d.get('type'))
+                env[d['id']] = None           # reading it before an assignment is rejected
+                return self.stmts([more] + rest, env)
             if strip_quals((d.get('type') or {}).get('qualType', '')).endswith('*'):
                 (base, v), pend, binds = self.full_expr(init[0], env, allow_pending=True, ptr=True)
                 if base is None:
@@ -673,6 +723,22 @@ class Translator:
             t = self.stmts([inner[1]] + rest, env)
             e = self.stmts(([inner[2]] if len(inner) > 2 else []) + rest, env)
             return self.with_binds(binds, '(if z2b %s then %s else %s)' % (cond, t, e))
+        if k == 'CStyleCastExpr' and n_cast_to_void(s):
+            _, pend, binds = self.full_expr(inner[0], env, allow_pending=True)
+            lets, env2 = self.apply_pending(pend, env)
+            return self.with_binds(binds, '%s%s' % (lets, self.stmts(rest, env2)))
+        if s.get('kind') == 'CompoundAssignOperator' and s.get('opcode') in ('+=', '-=') and self.is_ptr(inner[0]):
+            lhs = inner[0]
+            while lhs.get('kind') == 'ParenExpr':
+                lhs = lhs['inner'][0]
+            vid = (lhs.get('referencedDecl') or {}).get('id')
+            if lhs.get('kind') != 'DeclRefExpr' or vid not in env or vid not in self.ptr_base:
+                raise Unsupported('update of a pointer that is not a local variable')
+            e, _, binds = self.full_expr(inner[1], env)
+            name = self.fresh(self.var_names.get(vid, 'p'))
+            env2 = dict(env)
+            env2[vid] = name
+            return self.with_binds(binds, 'let %s := (%s %s %s) in\n  %s' % (name, env[vid], s['opcode'][0], e, self.stmts(rest, env2)))
         if n_is_assign(s) and s.get('opcode') == '=' and self.is_ptr(inner[0]):
             lhs = inner[0]
             while lhs.get('kind') == 'ParenExpr':
@@ -694,15 +760,15 @@ class Translator:
             vid = vs.pop()
             if vid not in env:
                 raise Unsupported('update of a non-local')
-            pend = []
+            pend, binds = [], []
             if n_is_assign(s):
-                # x op= e where e may contain y++ / y-- (y other than x, occurring once)
-                self.pending = []
+                # x op= e where e may contain y++ / y-- (y other than x, occurring once) and calls that advance a pointer
+                self.pending, self.binds = [], []
                 try:
                     val = self.update_value(s, vid, env)
-                    pend = self.pending
+                    pend, binds = self.pending, self.binds
                 finally:
-                    self.pending = None
+                    self.pending, self.binds = None, None
                 for pv, _ in pend:
                     if pv == vid or self.count_refs(s, pv) != 1:
                         raise Unsupported('a variable incremented inside an expression occurs elsewhere in it')
@@ -712,7 +778,7 @@ class Translator:
             name = self.fresh(self.var_names.get(vid) or env[vid].rstrip("0123456789").rstrip('_'))
             env[vid] = name
             lets, env = self.apply_pending(pend, env)
-            return 'let %s := %s in %s\n  %s' % (name, val, lets, self.stmts(rest, env))
+            return self.with_binds(binds, 'let %s := %s in %s\n  %s' % (name, val, lets, self.stmts(rest, env)))
         raise Unsupported('statement %s' % k)
 
     def assign_value(self, s, env):
@@ -754,7 +820,7 @@ class Translator:
         self.fields, self.field_order = {}, []
         self.ptr_base, self.var_names, self.arrays = {}, {}, []
         self.loop_defs, self.loop_count, self.cur_name, self.fuel, self.pending = [], 0, cname or name, 'fuel', None
-        self.binds, self.shortcircuit, self.loop_stack = None, 0, []
+        self.binds, self.shortcircuit, self.loop_stack, self.ref_ptrs = None, 0, [], []
         self.opt = self.fuelled((name, qt))
         for c in n.get('inner', []) or []:
             if c.get('kind') == 'ParmVarDecl':
@@ -765,6 +831,23 @@ class Translator:
                     params.append(('rec', c['id']))
                     continue
                 self.var_names[c['id']] = c.get('name', 'arg%d' % len(params))
+                if q.replace(' ', '').endswith('*&'):
+                    pname = 'p_' + c['name']
+                    params.append('(%s : Z -> Z)' % pname)
+                    params.append('(v_%s : Z)' % c['name'])
+                    self.ptr_base[c['id']] = pname
+                    self.arrays.append(pname)
+                    env[c['id']] = 'v_' + c['name']
+                    self.ref_ptrs.append(c['id'])
+                    continue
+                if (name, c.get('name')) in ALIAS_PARAMS:
+                    other = [i for i in self.ptr_base if self.var_names.get(i) == ALIAS_PARAMS[(name, c['name'])]]
+                    if not other or not q.endswith('*'):
+                        raise Unsupported('alias parameter %s' % c.get('name'))
+                    params.append('(v_%s : Z)' % c['name'])
+                    self.ptr_base[c['id']] = self.ptr_base[other[0]]
+                    env[c['id']] = 'v_' + c['name']
+                    continue
                 if q.endswith('*'):
                     pname = 'p_' + c.get('name', 'arg%d' % len(params))
                     params.append('(%s : Z -> Z)' % pname)
@@ -792,8 +875,10 @@ class Translator:
             else:
                 plist.append(pp)
         if self.opt:
+            if self.ref_ptrs:
+                raise Unsupported('loop in a function with a T*& parameter')
             return '\n\n'.join(self.loop_defs + ['Definition src_%s (fuel : nat) %s : option Z :=\n  %s.' % (cname or name, ' '.join(plist), text)])
-        return 'Definition src_%s %s : Z :=\n  %s.' % (cname or name, ' '.join(plist), text)
+        return 'Definition src_%s %s : %s :=\n  %s.' % (cname or name, ' '.join(plist), 'Z * Z' if self.ref_ptrs else 'Z', text)
 
 
 def has_loop(n):
@@ -810,6 +895,10 @@ def contains_kind(n, kinds):
     if n.get('kind') in kinds:
         return True
     return any(contains_kind(c, kinds) for c in (n.get('inner') or []))
+
+
+def n_cast_to_void(s):
+    return s.get('castKind') == 'ToVoid'
 
 
 def n_is_assign(s):
